@@ -259,7 +259,7 @@ package keeper
 //@ ghost covered(Slice_Str, Slice_Str, Slice_Str) bool
 //@ axiom covered.def: forall A Slice_Str, R Slice_Str, U Slice_Str :: covered(A, R, U) <==> (len(A) == len(R) + len(U)
 //@       && (forall i int, j int :: 0 <= i && i < j && j < len(A) ==> A[i] != A[j]) && (forall i int :: 0 <= i && i < len(A) ==> contains(R, A[i]) || contains(U, A[i])))
-//@ axiom pigeon.cover: forall A Slice_Str, R Slice_Str, U Slice_Str :: covered(A, R, U) ==> (forall q int :: 0 <= q && q < len(R) ==> contains(A, R[q]))
+//@ axiom [lean.Pigeonhole] pigeon.cover: forall A Slice_Str, R Slice_Str, U Slice_Str :: covered(A, R, U) ==> (forall q int :: 0 <= q && q < len(R) ==> contains(A, R[q]))
 
 //@ func inUpdateList(did, list) (res)
 //@   requires forall j int :: 0 <= j && j < len(list) ==> list[j] != nil
